@@ -2,9 +2,9 @@ package mon
 
 import (
 	"context"
-	"os"
 	"fmt"
 	"math/rand/v2"
+	"os"
 	"sort"
 	"strings"
 	"sync"
@@ -169,8 +169,8 @@ func (s *subRec) snapshot() []uint32 {
 }
 
 type pubRec struct {
-	id             uint32
-	call, ret      int64
+	id        uint32
+	call, ret int64
 }
 
 func runC08(r *kit.Run) {
